@@ -270,6 +270,66 @@ def NoticeForm.line : NoticeForm → List Char
   | .sigint => wSigint ++ ['\n']
   | .sigterm => wSigterm ++ ['\n']
 
+/-! ## `_consume_async_expects` at line level
+
+The message-level machine above reads one message per outstanding expectation (`pReadExpected`/`pReadMismatch`).  Here
+is the same routine on lines of text: a reply may be the expected text (`preload_eclass succeeded`) or a negative /
+different one (`preload_eclass failed`); either way it is the reply *to that request* and has to be taken off the pipe,
+otherwise every later request is paired with an earlier request's reply. -/
+
+abbrev Line := List Char
+
+/-- `x.rstrip("\n")` -/
+def rstripNl (l : Line) : Line := (l.reverse.dropWhile (· == '\n')).reverse
+
+inductive ReadRes
+  | got (lines rest : List Line)
+  | notice (rest : List Line)       -- a death notice was read: `readlines` raises
+  | dry                             -- nothing left to read: Python blocks
+  deriving DecidableEq, Repr
+
+/-- `readlines(n)`: one `readline` per count, every line checked for a notice -/
+def readLines : Nat → List Line → ReadRes
+  | 0, pipe => .got [] pipe
+  | _ + 1, [] => .dry
+  | n + 1, l :: pipe =>
+    if isNoticeLine l then .notice pipe
+    else match readLines n pipe with
+      | .got ls rest => .got (l :: ls) rest
+      | r => r
+
+inductive Consumed
+  | result (ok : Bool) (rest : List Line)
+  | interrupted (rest : List Line)
+  | blocked
+  deriving DecidableEq, Repr
+
+/-- `_consume_async_expects`: read as many lines as expectations are outstanding, then compare -/
+def consumeBatch (expected : List Line) (pipe : List Line) : Consumed :=
+  match readLines expected.length pipe with
+  | .got ls rest => .result (ls.map rstripNl == expected) rest
+  | .notice rest => .interrupted rest
+  | .dry => .blocked
+
+/-! ## `__source_bashrcs`: the daemon's loop after `request_bashrcs` -/
+
+/-- what Python sends per bashrc: `path` + file (sourced; `status` = exit status of `source`, i.e. of the last command
+of the file or of its `return`), `transfer` + text (eval'ed), or an unknown mode word -/
+inductive BashrcItem | path (status : Nat) | transfer (status : Nat) | other
+  deriving DecidableEq, Repr
+
+inductive BashrcLine | next | failed | death
+  deriving DecidableEq, Repr
+
+/-- lines the daemon writes while working through the items (then `end_request` ends the loop): a sourced file is
+acknowledged whatever its exit status, a failing `eval` and an unknown mode die -/
+def sourceBashrcs : List BashrcItem → List BashrcLine
+  | [] => []
+  | .path _ :: rest => .next :: sourceBashrcs rest
+  | .transfer 0 :: rest => .next :: sourceBashrcs rest
+  | .transfer (_ + 1) :: _ => [.death]
+  | .other :: _ => [.failed, .death]
+
 /-! ## Python's view of a session (used to validate recorded traces) -/
 
 inductive Obs | wrote (x : Cmd) | read (m : Msg)
